@@ -240,10 +240,10 @@ Returns:
             for i in range(self.nPop):
                 self.population[i] = self._clipGuessWithinRangeBoundary(self.population[i], (not ngen) or (i is indx))
             cost = wrap_bounds(cost, self._strictMin, self._strictMax) #XXX: remove?
-        cost = wrap_penalty(cost, self._penalty)
         if self._reducer:
            #cost = reduced(*self._reducer)(cost) # was self._reducer = (f,bool)
-            cost = reduced(self._reducer, arraylike=True)(cost)
+            cost = reduced(self._reducer, arraylike=True)(cost) # before penalty
+        cost = wrap_penalty(cost, self._penalty)
         # hold on to the 'wrapped' and 'raw' cost function
         self._cost = (cost, raw, ExtraArgs)
         self._live = True
@@ -489,10 +489,10 @@ Returns:
             for i in range(self.nPop):
                 self.population[i] = self._clipGuessWithinRangeBoundary(self.population[i], (not ngen) or (i is indx))
             cost = wrap_bounds(cost, self._strictMin, self._strictMax) #XXX: remove?
-        cost = wrap_penalty(cost, self._penalty)
         if self._reducer:
            #cost = reduced(*self._reducer)(cost) # was self._reducer = (f,bool)
-            cost = reduced(self._reducer, arraylike=True)(cost)
+            cost = reduced(self._reducer, arraylike=True)(cost) # before penalty
+        cost = wrap_penalty(cost, self._penalty)
         # hold on to the 'wrapped' and 'raw' cost function
         self._cost = (cost, raw, ExtraArgs)
         self._live = True
